@@ -650,6 +650,13 @@ pub fn run_native_testbench_timed(
     Ok((result, derive_el))
 }
 
+/// A `get_range` bound as a `width`-bit pattern: an argument narrower than the
+/// handle is extended to the handle width by its own signedness first, so that
+/// `-5` stays negative on a 64-bit signed handle.
+fn range_bound(v: &Value, width: u32) -> u64 {
+    v.expand(width as usize, true).payload_u64()
+}
+
 fn exec(sim: &mut Simulator, stmts: &[TestbenchStatement]) -> ExecResult {
     for stmt in stmts {
         let result = exec_one(sim, stmt);
@@ -982,8 +989,8 @@ fn exec_one(sim: &mut Simulator, stmt: &TestbenchStatement) -> ExecResult {
             ret,
         } => {
             sim.ensure_comb_updated();
-            let min_v = min.eval(&mut sim.mask_cache).payload_u64();
-            let max_v = max.eval(&mut sim.mask_cache).payload_u64();
+            let min_v = range_bound(&min.eval(&mut sim.mask_cache), *width);
+            let max_v = range_bound(&max.eval(&mut sim.mask_cache), *width);
             let value = crate::random_table::get_range(*handle, min_v, max_v, *width, *signed);
             if let Some((ret, _)) = ret {
                 sim.set_var_by_id(ret, value);
